@@ -4,6 +4,7 @@ package main
 
 import (
 	"fmt"
+	"math"
 	"math/big"
 	"sort"
 	"strings"
@@ -141,8 +142,9 @@ func runC15(c *hc.Ctx) error {
 		"float64 arithmetic of FromNative / ToNative / MatrixSize / MatrixBoundingBox and roundFloat(.., 9): not modelled; envelope = margin 1e-6 tile sizes from tile borders, coordinates compared to 1e-9 * scale, scale = max(1, |origin x|, |origin y|, matrix width, matrix height)",
 		"uint(x) of a float64 quotient modelled as floor for 0 <= x < 2^63",
 		"the EPSG axis table is regenerated from tms20/epsg_axis_order.go; the oracle's axis order comes from the documents' orderedAxes",
+		"source tie C15_source_tie_addressing (translator/tmsaddr.go -> gen/TmsAddrGen.v): the bodies of axisOrderIsLatLon, IsLatLon, ToXYPoint, MatrixSize, FromNative, ToNative, MatrixBoundingBox, roundFloat are regenerated and proved equal to the model under the reading of Tms/GoAddr.v (float64 as exact Q, uint/int as exact Z, pointers as options); mapped to the model rather than translated: crs.Authority/Version/Code, strings.ToLower, fmt.Sprintf of %s, strconv.ParseUint(s,10,64), regexp ^(p1|p2|..).Match as a prefix test, the EPSG map look-up, calls of roundFloat as the identity (the translated body is proved within 1/(2*10^p) of it), slippy.NewTile, geom.Point.X/Y, fmt.Errorf/errors.New as Error",
 	}
-	c.Sum.Assumptions = []string{"points are finite float64 pairs; tile matrix ids are non-negative (FromNative / ToNative take the id as uint)"}
+	c.Sum.Assumptions = []string{"points in the correspondence are finite float64 pairs (NaN / infinite ordinates: oracle only, they map to no tile); tile matrix ids are non-negative (FromNative / ToNative take the id as uint)"}
 
 	names, err := builtinNames(c)
 	if err != nil {
@@ -395,6 +397,18 @@ func runC15(c *hc.Ctx) error {
 							vs.add(hc.Violation{What: "FromNative maps a point outside the matrix extent to a tile", Input: in, Observed: obs, Expected: "no tile"})
 						}
 						buf.add(fmt.Sprintf("PointCase %s %d %d %s %s %s", s.coq, id, flip, coqQ(ex), coqQ(ey), obs), in)
+					}
+				}
+				// ---- points that are not numbers: POINT EMPTY (NaN, NaN), one NaN ordinate, infinities: in no tile
+				for _, np := range [][2]float64{{math.NaN(), math.NaN()}, {math.NaN(), 0}, {0, math.NaN()}, {math.Inf(1), 0}, {0, math.Inf(-1)}, {math.Inf(-1), math.Inf(1)}} {
+					tile, ok, pan := callFromNative(&t, id, geom.Point{np[0], np[1]})
+					in := map[string]any{"set": s.name, "matrix": id, "corner": flip, "point": fmt.Sprint(np)}
+					c.Sum.Evaluations++
+					c.Count("points with NaN / infinite ordinates (oracle only)")
+					if pan != "" {
+						vs.add(hc.Violation{What: "FromNative panics", Input: in, Observed: pan})
+					} else if ok {
+						vs.add(hc.Violation{What: "FromNative maps a point with a NaN / infinite ordinate (e.g. POINT EMPTY) to a tile", Input: in, Observed: fmt.Sprintf("(%d, %d)", tile.X, tile.Y), Expected: "no tile"})
 					}
 				}
 				// ---- tiles at and beyond (W, H)
